@@ -9,6 +9,8 @@ package main
 import (
 	"encoding/json"
 	"fmt"
+	"os"
+	"runtime/debug"
 	"reflect"
 	"regexp"
 	"sort"
@@ -139,6 +141,13 @@ func expect(p *Program, gens [2]func() any) expectation {
 		}
 	}
 	ex.model = root
+	if p.Dst == "ANY" && !unwrap(root).IsValid() && !ex.mustErr {
+		// the successor would be handed a nil interface: nil interfaces between nodes are a separate, known behaviour
+		ex.mayErr = true
+		if ex.why == "" {
+			ex.why = "unspecified: the successor input would be a nil interface"
+		}
+	}
 	return ex
 }
 
@@ -150,41 +159,54 @@ var (
 // normMsg makes an error / panic text usable in a deterministic message and signature: first line, no
 // addresses, bounded length.
 func normMsg(s string) string {
-	if i := strings.Index(s, "\n"); i >= 0 {
-		s = s[:i]
-	}
 	if i := strings.Index(s, "stack:"); i >= 0 {
 		s = s[:i]
 	}
+	if i := strings.Index(s, "goroutine "); i >= 0 {
+		s = s[:i]
+	}
+	s = strings.ReplaceAll(s, "------------------------", "")
 	s = reAddr.ReplaceAllString(s, "0x?")
 	s = reSpace.ReplaceAllString(strings.TrimSpace(s), " ")
-	if len(s) > 160 {
-		s = s[:160]
+	if len(s) > 300 {
+		s = s[:300]
 	}
 	return s
 }
 
-// errClass is a short class of an error text for signatures: the innermost message without specifics.
+// errClass is a short class of an error / panic text for signatures: the innermost message without specifics.
 func errClass(s string) string {
 	s = normMsg(s)
-	for _, pre := range []string{"reflect: call of ", "reflect: ", "reflect.Value."} {
+	for _, pre := range []string{"reflect: call of ", "reflect: "} {
 		if i := strings.Index(s, pre); i >= 0 {
-			s = s[i:]
+			s = s[i+len(pre):]
 			break
 		}
 	}
-	if i := strings.LastIndex(s, "] "); i >= 0 && i+2 < len(s) && strings.Contains(s[:i], "[") {
-		s = s[i+2:]
+	if strings.HasPrefix(s, "[") {
+		if i := strings.Index(s, "] "); i >= 0 {
+			s = s[i+2:]
+		}
 	}
-	cut := func(sep string) {
-		if i := strings.Index(s, sep); i > 8 {
+	if i := strings.LastIndex(s, "fail: "); i >= 0 {
+		s = s[i+6:]
+	}
+	s = strings.TrimPrefix(s, "panic error: ")
+	if strings.HasPrefix(s, "runtime check failed for mapping") {
+		s = "runtime check failed for mapping"
+	}
+	cut := func(sep string, min int) {
+		if i := strings.Index(s, sep); i > min {
 			s = s[:i]
 		}
 	}
-	cut(", ")
-	cut(". ")
-	cut("=")
-	cut(":")
+	cut(" node path", 0)
+	if !strings.HasPrefix(s, "interface conversion") {
+		cut(", ", 8)
+		cut(". ", 8)
+		cut("=", 8)
+		cut(": ", 12)
+	}
 	s = strings.Map(func(r rune) rune {
 		switch {
 		case r >= 'a' && r <= 'z', r >= 'A' && r <= 'Z', r >= '0' && r <= '9':
@@ -194,8 +216,11 @@ func errClass(s string) string {
 		}
 		return -1
 	}, s)
-	if len(s) > 60 {
-		s = s[:60]
+	for strings.Contains(s, "--") {
+		s = strings.ReplaceAll(s, "--", "-")
+	}
+	if len(s) > 70 {
+		s = s[:70]
 	}
 	return strings.Trim(s, "-")
 }
@@ -238,14 +263,24 @@ func checkRuns(p *Program, decl []Call, c compiled, vals []string, stream bool, 
 		case o.Panic != "":
 			desc = "panic"
 			good = false
-			cls := "valid-input"
+			cls := "every source path holds a value of a fitting type"
 			if ex.mustErr {
-				cls = "runtime-checked-mapping"
+				cls = "a run-time checked mapping meets a value it cannot move"
 			} else if ex.mayErr {
-				cls = "absent-or-nil-source"
+				cls = "a statically typed source path meets an absent key / nil pointer"
 			}
-			add(mk(fmt.Sprintf("panic-out-of-run/%s/%s/%s", cls, mode, errClass(o.Panic)),
-				fmt.Sprintf("the run PANICKED out of the public API: %s (%s)", normMsg(o.Panic), ex.why)))
+			sfx := ""
+			if ex.mayErr && !ex.mustErr {
+				sfx = "/statically-typed-source-nil-or-absent" // outside the letter of the statement: own class
+			} else if !ex.mustErr {
+				sfx = "/on-valid-input"
+			}
+			sig := runSig("panic-out-of-run", p, stream, errClass(o.Panic))
+			if strings.HasPrefix(sig, "panic-out-of-run") {
+				sig += sfx
+			}
+			add(mk(sig,
+				fmt.Sprintf("the run PANICKED out of the public API: %s (input class: %s; %s)", normMsg(o.Panic), cls, ex.why)))
 		case ex.mustErr:
 			if o.Err == nil {
 				desc = "ok:" + render(o.Input)
@@ -264,7 +299,7 @@ func checkRuns(p *Program, decl []Call, c compiled, vals []string, stream bool, 
 				st.outcomes["run:"+mode+":error-on-absent-or-nil-source"]++
 			} else {
 				good = false
-				add(mk(fmt.Sprintf("unexpected-run-error/%s/%s", mode, errClass(o.Err.Error())),
+				add(mk(runSig("unexpected-run-error", p, stream, errClass(o.Err.Error())),
 					fmt.Sprintf("the run failed: %s; the model expects successor input %s", normMsg(o.Err.Error()), render(ex.model))))
 			}
 		default:
@@ -307,6 +342,27 @@ func checkRuns(p *Program, decl []Call, c compiled, vals []string, stream bool, 
 		out = []finding{mk("nondeterministic-runs/"+mode, "the same compiled workflow gives different results for the same input over 5 runs")}
 	}
 	return out
+}
+
+// streamRetyped: the three faces of one behaviour - in streaming execution the handler that performs the
+// run-time type check turns the stream of map[string]any chunks into a stream of interface chunks, which the
+// next consumer rejects: the input converter (panic out of Transform), the merge with a static value, the
+// merge with a second predecessor.
+var streamRetyped = map[string]bool{
+	"interface-conversion-interface-is-nil-not-compose-streamReader": true,
+	"mergeValues-stream-type-unsupported-chunk-type":                 true,
+	"mergeStream-chunk-type-mismatch":                                true,
+}
+
+func runSig(kind string, p *Program, stream bool, cls string) string {
+	if stream && streamRetyped[cls] {
+		for i := range p.Items {
+			if p.info(i).RtChecked {
+				return "runtime-checked-mapping-breaks-streaming"
+			}
+		}
+	}
+	return kind + "/" + modeName(stream) + "/" + cls
 }
 
 // blame names the first mapping whose target does not hold the model's value.
@@ -359,51 +415,70 @@ func sameCall(decl []Call, a, b int) bool {
 	return false
 }
 
-// pairSignature classifies an accepted overlapping pair.
-func pairSignature(p *Program, decl []Call, a, b int) string {
+// pairSignature classifies an accepted overlapping pair. everyOrder: the pair on its own is accepted in
+// every declaration order; otherwise decl is an accepted order.
+func pairSignature(p *Program, decl []Call, a, b int, everyOrder bool) string {
 	ia, ib := p.Items[a], p.Items[b]
-	if len(ia.To) > len(ib.To) {
+	plain := func(it Item) bool { return it.Src != slotStatic && it.From == nil && it.To == nil }
+	if plain(ib) && !plain(ia) || (len(ia.To) > len(ib.To) && !plain(ia)) {
 		a, b = b, a
 		ia, ib = ib, ia
 	}
-	// ia is the shorter (or equal) path
-	rel := "prefix"
+	// ia is the shorter (or equal) path, or the AddInput without mappings
+	sa, sb := ia.Src == slotStatic, ib.Src == slotStatic
+	first := "shorter-first"
+	if flatPos(decl, b) < flatPos(decl, a) {
+		first = "longer-first"
+	}
+	if everyOrder {
+		first = "every-order"
+	}
 	switch {
+	case plain(ia):
+		// AddInput(pred) without mappings = the whole output becomes the whole input
+		switch first {
+		case "shorter-first":
+			first = "declared-first"
+		case "longer-first":
+			first = "declared-last"
+		}
+		other := "mapping"
+		if sb {
+			other = "static"
+		}
+		return "overlap-accepted/input-without-mappings+" + other + "/" + first
+	case len(ia.To) == 0:
+		if sb {
+			return "overlap-accepted/whole-input-mapping+static"
+		}
+		return "overlap-accepted/whole-input-mapping+mapping/" + first
 	case len(ia.To) == len(ib.To):
-		rel = "same-path-len1"
+		rel := "same-path-len1"
 		if len(ia.To) >= 2 {
 			rel = "same-nested-path"
 		}
-		if len(ia.To) == 0 {
-			rel = "whole-input-twice"
+		if sa || sb {
+			return "overlap-accepted/" + rel + "/dynamic+static"
 		}
-	case len(ia.To) == 0 && ia.From == nil:
-		rel = "whole-edge"
-	case len(ia.To) == 0:
-		rel = "whole-input-mapping"
-	case len(ia.To) >= 2:
-		rel = "nested-prefix"
-	}
-	sa, sb := ia.Src == slotStatic, ib.Src == slotStatic
-	switch {
-	case sa && sb:
-		return "overlap-accepted/" + rel + "/static+static"
-	case sa:
-		return "overlap-accepted/" + rel + "/static-shorter+dynamic-longer"
-	case sb:
-		return "overlap-accepted/" + rel + "/dynamic-shorter+static-longer"
-	}
-	if strings.HasPrefix(rel, "same") || rel == "whole-input-twice" {
 		return "overlap-accepted/" + rel + "/dynamic+dynamic"
 	}
-	order := "shorter-first"
-	if flatPos(decl, b) < flatPos(decl, a) {
-		order = "longer-first"
+	// strict non-empty prefix
+	stem := "overlap-accepted/prefix"
+	if len(ia.To) >= 2 {
+		stem = "overlap-accepted/nested-prefix"
 	}
-	if rel == "prefix" && order == "longer-first" {
+	switch {
+	case sa && sb:
+		return "prefix-after-longer-path-accepted/static+static"
+	case sa:
+		return "prefix-after-longer-path-accepted/static-prefix"
+	case sb:
+		return stem + "/dynamic-prefix+static-longer"
+	}
+	if stem == "overlap-accepted/prefix" && first == "longer-first" {
 		return "prefix-after-longer-path-accepted"
 	}
-	return "overlap-accepted/" + rel + "/dynamic+dynamic/" + order
+	return stem + "/dynamic+dynamic/" + first
 }
 
 // subProgram restricts a program and a declaration order to two of its items.
@@ -480,19 +555,29 @@ func evalProgram(p *Program, quick bool, st *stats) []finding {
 		var bp [2]int
 		for _, pr := range pairs {
 			q, qd := subProgram(p, d, pr[0], pr[1])
-			ok := len(p.Items) == 2
+			twoStatics := q.Items[0].Src == slotStatic && q.Items[1].Src == slotStatic
+			every := len(rejected) == 0
+			ok := len(p.Items) == 2 || twoStatics // two static values cannot stand alone (no predecessor)
 			if !ok {
-				_, err, pv := compileDecl(q, qd, countStatics(q) >= 2, st)
+				_, err, pv := compileDecl(q, qd, false, st)
 				ok = err == nil && pv == ""
+				if ok {
+					every = true
+					for _, od := range allDecls(q) {
+						if _, err, pv := compileDecl(q, od, false, st); err != nil || pv != "" {
+							every = false
+						}
+					}
+				}
 			}
 			if ok {
-				sig, bp = pairSignature(p, d, pr[0], pr[1]), pr
+				sig, bp = pairSignature(p, d, pr[0], pr[1], every), pr
 				break
 			}
 		}
 		if sig == "" {
 			bp = pairs[0]
-			sig = pairSignature(p, d, bp[0], bp[1]) + "/only-with-a-third-mapping"
+			sig = pairSignature(p, d, bp[0], bp[1], len(rejected) == 0) + "/only-with-a-third-mapping"
 		}
 		call := "separate calls"
 		if sameCall(d, bp[0], bp[1]) {
@@ -587,7 +672,7 @@ func replayCase(cs *Case, quick bool) error {
 	p := cs.Prog
 	var fs []finding
 	switch {
-	case cs.Decl == nil || strings.HasPrefix(cs.Sig, "overlap-accepted") || cs.Sig == "prefix-after-longer-path-accepted" || cs.Vals == nil:
+	case cs.Decl == nil || strings.HasPrefix(cs.Sig, "overlap-accepted") || strings.HasPrefix(cs.Sig, "prefix-after-longer-path-accepted") || cs.Vals == nil:
 		fs = evalProgram(p, quick, st)
 	default:
 		c, err, pv := compileDecl(p, cs.Decl, false, st)
@@ -620,8 +705,9 @@ func main() {
 	}
 	c.Res.Explanation = "Universe: root types T{S string,N int,In Inner,P *Inner,M map[string]any,X any,PS *string}, *T, map[string]any, map[string]string, any for predecessors and successor; " +
 		"paths by type walk (map keys k,j; below an interface: keys k,j on the target side, key k / field S on the source side) of length <=2 (quick) / <=3 (thorough), plus the whole value on either side; " +
-		"size 1: every type-compatible (from,to) of every type pair, predecessor = START or a lambda, all values; size 2: every multiset of targets x every slot assignment (START/lambda, two lambdas, static) x <=2 donors per target; " +
-		"size 3: the same over a reduced type set. Oracle: (1) a set with two targets that are equal or prefix-related must be rejected by every declaration order; " +
+		"size 1: every type-compatible (from,to) of every type pair, predecessor = START or a lambda, all values (quick additionally: every path of length 3 once as target with its first donor and once as source with its first sink); " +
+		"size 2: every multiset of 2 targets x every assignment of the items to the predecessor slots (START | one lambda | START+lambda | two lambdas) or to a static value x <=2 donors per target (first statically typed, first run-time checked source path of a fitting type), predecessor types {T, map[string]any} (thorough: + *T, map[string]string); " +
+		"size 3: the same with 1 donor, successor types {T, map[string]any}, predecessor configurations START(T) | START(T)+lambda(map[string]any) | lambda(T)+lambda(T) (thorough: + START(map[string]any)). Values: 7 T values, 8 *T, 8 map[string]any, 3 map[string]string, 6 any (absent keys, nil pointers/maps, wrong and typed-nil dynamic values behind any); sets use the first two per slot (quick) or vary one slot at a time (thorough). Oracle: (1) a set with two targets that are equal or prefix-related must be rejected by every declaration order; " +
 		"(2) accepted disjoint sets: the successor input recorded inside the successor equals the reflect-based get/set model (mapped paths set, rest zero), over 5 runs, in both paradigms; " +
 		"(3) predecessor outputs equal their deep copies after the run; (4) run-time checked mappings meeting a wrong dynamic value give an error, a panic out of Invoke/Transform is a violation."
 	quick := c.Quick()
@@ -642,6 +728,19 @@ func main() {
 	st := newStats()
 	perSig := map[string]int{}
 	idx := 0
+	if os.Getenv("C15_COUNT") != "" {
+		n := map[string]int{}
+		enumerate(quick, func(p *Program) bool {
+			n[fmt.Sprintf("size%d %s ->%s", len(p.Items), p.Shape, p.Dst)]++
+			n[fmt.Sprintf("size%d", len(p.Items))]++
+			n["orders"] += len(allDecls(p))
+			return true
+		})
+		for _, k := range harness.SortedKeys(n) {
+			fmt.Println(k, n[k])
+		}
+		os.Exit(0)
+	}
 	enumerate(quick, func(p *Program) bool {
 		idx++
 		name := fmt.Sprintf("%07d %s", idx, p)
@@ -655,7 +754,18 @@ func main() {
 		c.Journal(name, cs)
 		var fs []finding
 		before := st.validated
-		err := c.Guard(name, cs, 120*time.Second, func() error { fs = evalProgram(p, quick, st); return nil })
+		err := c.Guard(name, cs, 120*time.Second, func() error {
+			defer func() {
+				if r := recover(); r != nil {
+					if os.Getenv("C15_DEBUG") != "" {
+						fmt.Printf("HARNESS-LEVEL PANIC %v\n%s\n", r, debug.Stack())
+					}
+					panic(r)
+				}
+			}()
+			fs = evalProgram(p, quick, st)
+			return nil
+		})
 		if err != nil {
 			fs = append(fs, finding{Sig: "panic-in-harness-or-unguarded-call", Msg: p.String() + ": " + normMsg(err.Error()), Case: cs})
 		}
@@ -672,10 +782,11 @@ func main() {
 		for _, f := range fs {
 			perSig[f.Sig]++
 			st.counters["violations["+f.Sig+"]"]++
-			if perSig[f.Sig] > 2 || (perSig[f.Sig] > 1 && len(c.Res.Violations) >= 12) {
-				continue // keep the simplest cases of every class; the rest is counted
+			if perSig[f.Sig] > 1 {
+				continue // keep the simplest case of every class per worker; the rest is counted
 			}
-			c.Violate(harness.Violation{Scenario: name, Signature: f.Sig, Case: f.Case, Msg: f.Msg})
+			// not c.Violate: its cap of 20 would drop classes; one entry per class keeps this bounded
+			c.Res.Violations = append(c.Res.Violations, harness.Violation{Property: "C15", Scenario: name, Signature: f.Sig, Case: f.Case, Msg: f.Msg})
 		}
 		return true
 	})
